@@ -70,7 +70,7 @@ def cases(tier):
 
 
 def shards(tier):
-    return [('t', i, NSHARDS) for i in range(NSHARDS)] + [('subproc', 0, 1)]
+    return [('t', i, NSHARDS) for i in range(NSHARDS)] + [('subproc', 0, 1), ('cli', 0, 1)]
 
 
 def bounds(tier):
@@ -293,7 +293,45 @@ def run_subproc(tier, acc):
     tree.rmtree(wd)
 
 
+def run_cli(tier, acc):
+    """The trainer's own command line (trainer.main()): every spelling of the coverage option - 0, 0.0, 1, 1.0, values in between, none at all - and the
+    other numeric options; the ruleset written must be the one the library call with those values writes (checked against the tally like any other)."""
+    from .. import session as S
+    td = tree.scratch_tree()
+    lists = [c03.SCENARIOS[0], EXTRA[0]]
+    argsets = [([], {}), (['--coverage', '0'], dict(coverage=0.0)), (['-c', '0.0'], dict(coverage=0.0)), (['--coverage', '1'], dict(coverage=1.0)),
+               (['--coverage', '1.0'], dict(coverage=1.0)), (['--coverage', '0.5'], dict(coverage=0.5)), (['-c', '0.25', '--ngram', '3'], dict(coverage=0.25, ngram=3)),
+               (['--coverage', '0.95', '--alphabet', '10'], dict(coverage=0.95, alphabet_size=10)), (['-n', '2', '-a', '20'], dict(ngram=2, alphabet_size=20)),
+               (['--coverage', '0', '--ngram', '2'], dict(coverage=0.0, ngram=2))]
+    for li, lines in enumerate(lists):
+        tf = os.path.join(td, 'list%d.txt' % li)
+        P.write_training(tf, lines, 'utf-8', '\n')
+        for argv, opts in argsets:
+            acc.evals += 1
+            acc.nontrivial += 1
+            import shutil
+            shutil.rmtree(os.path.join(td, 'Rules', 'cli'), ignore_errors=True)
+            r = S.run_cli(td, 'trainer', ['-t', tf, '-r', 'cli', '-e', 'utf-8'] + argv)
+            case = {'layer': 'cli', 'list': li, 'argv': argv}
+            base = os.path.join(td, 'Rules', 'cli')
+            if not os.path.exists(os.path.join(base, 'Grammar', 'grammar.txt')):
+                if r.exc and 'SystemExit' not in r.exc:
+                    acc.fail(case, 'trainer.py %s raised %s' % (' '.join(argv), r.exc.strip().splitlines()[-1]), 'cli-raise')
+                else:
+                    acc.count('cli_training_did_not_complete')
+                continue
+            try:
+                msgs, _ = check_ruleset(base, lines, opts)
+            except Exception as e:
+                msgs = ['ruleset cannot be compared with the tally: %r' % (e,)]
+            for m in msgs[:3]:
+                acc.fail(case, 'trainer.py %s on %r..: %s' % (' '.join(argv) or '(no options)', lines[:3], m), 'cli-' + m.split(':')[0].split('/')[0])
+    tree.rmtree(td)
+
+
 def run_shard(shard, tier, acc):
+    if shard[0] == 'cli':
+        return run_cli(tier, acc)
     if shard[0] == 'subproc':
         run_subproc(tier, acc)
     else:
@@ -301,6 +339,12 @@ def run_shard(shard, tier, acc):
 
 
 def replay(case):
+    if case.get('layer') == 'cli':
+        from ..runner import Acc
+        acc = Acc()
+        run_cli('quick', acc)
+        fs = [f for f in acc.failures if f['case'] == case]
+        return fs[0]['msg'] if fs else None
     tree.use()
     wd = tree.mkdtemp('pcfgmc-c06r-')
     ok, base, out, pi = P.train(wd, case['lines'], rule='a', **case['opts'])
